@@ -1,6 +1,8 @@
 package main
 
 import (
+	"fmt"
+	"go/token"
 	"go/types"
 	"reflect"
 
@@ -263,4 +265,161 @@ func init() {
 	}
 	intrinsics["(reflect.Value).Pointer"] = ptrID
 	intrinsics["(reflect.Value).UnsafePointer"] = ptrID
+}
+
+// math/rand (package-level, locked generator): the draw is an arbitrary value of the documented
+// range; Intn panics on a non-positive bound as the real function does. Under a concrete vector the
+// draw is 0 (the real draw is not an input of the harness; no check compares outputs that use it).
+func init() {
+	draw := func(e *Engine, w int, lo, hi *Term) Value { // lo <= r < hi (signed), hi nil = no upper bound
+		if e.vector != nil {
+			return mkInt(w, 0)
+		}
+		t := e.newSym(w, "rnd")
+		c := mk("bvsge", 0, t, lo)
+		if hi != nil {
+			c = mkAnd(c, mk("bvslt", 0, t, hi))
+		}
+		e.assume(c)
+		return Int{W: w, T: t}
+	}
+	intn := func(w int, name string) intrinsic {
+		return func(e *Engine, a []Value) Value {
+			n := a[0].(Int)
+			if n.T == nil {
+				if signExt(n.V, w) <= 0 {
+					e.goPanicStr("invalid argument to " + name)
+				}
+				return draw(e, w, bvConst(w, 0), bvConst(w, n.V))
+			}
+			if e.Branch(mk("bvsle", 0, n.T, bvConst(w, 0))) {
+				e.goPanicStr("invalid argument to " + name)
+			}
+			return draw(e, w, bvConst(w, 0), n.T)
+		}
+	}
+	intrinsics["math/rand.Intn"] = intn(64, "Intn")
+	intrinsics["math/rand.Int63n"] = intn(64, "Int63n")
+	intrinsics["math/rand.Int31n"] = intn(32, "Int31n")
+	intrinsics["math/rand.Int31"] = func(e *Engine, a []Value) Value { return draw(e, 32, bvConst(32, 0), nil) }
+	intrinsics["math/rand.Int63"] = func(e *Engine, a []Value) Value { return draw(e, 64, bvConst(64, 0), nil) }
+	intrinsics["math/rand.Int"] = func(e *Engine, a []Value) Value { return draw(e, 64, bvConst(64, 0), nil) }
+}
+
+// reflect.DeepEqual over the interpreter's own values (the library source pokes into the
+// representation of reflect.Value, which the engine models abstractly). Same rules as the real one:
+// nil and empty slices/maps differ, funcs are equal only when both nil, pointers by pointee,
+// NaN != NaN; cyclic values are cut by a depth limit (unsupported beyond it).
+func init() {
+	var deep func(e *Engine, t types.Type, x, y Value, d int) *Term
+	tt, ff := tTrue, tFalse
+	deep = func(e *Engine, t types.Type, x, y Value, d int) *Term {
+		if d > 40 {
+			panic(unsupported("reflect.DeepEqual deeper than 40"))
+		}
+		switch xv := x.(type) {
+		case Iface:
+			yv := y.(Iface)
+			if xv.T == nil || yv.T == nil {
+				if xv.T == nil && yv.T == nil {
+					return tt
+				}
+				return ff
+			}
+			if !types.Identical(xv.T, yv.T) {
+				return ff
+			}
+			return deep(e, xv.T, xv.V, yv.V, d+1)
+		case Slice:
+			yv := y.(Slice)
+			if xv.Nil != yv.Nil || xv.Len != yv.Len {
+				return ff
+			}
+			if xv.Len == 0 || (xv.A == yv.A && xv.Off == yv.Off) {
+				return tt
+			}
+			et := t.Underlying().(*types.Slice).Elem()
+			r := tt
+			for i := 0; i < xv.Len; i++ {
+				r = mkAnd(r, deep(e, et, (*xv.A)[xv.Off+i], (*yv.A)[yv.Off+i], d+1))
+			}
+			return r
+		case Array:
+			yv := y.(Array)
+			et := t.Underlying().(*types.Array).Elem()
+			r := tt
+			for i := range xv {
+				r = mkAnd(r, deep(e, et, xv[i], yv[i], d+1))
+			}
+			return r
+		case Struct:
+			yv := y.(Struct)
+			st, ok := t.Underlying().(*types.Struct)
+			r := tt
+			for i := range xv {
+				var ft types.Type
+				if ok && i < st.NumFields() {
+					ft = st.Field(i).Type()
+				}
+				if ft == nil {
+					panic(unsupported("reflect.DeepEqual on an engine-internal struct"))
+				}
+				r = mkAnd(r, deep(e, ft, xv[i], yv[i], d+1))
+			}
+			return r
+		case *MapV:
+			yv := y.(*MapV)
+			if (xv == nil) != (yv == nil) {
+				return ff
+			}
+			if xv == nil || xv == yv {
+				return tt
+			}
+			if xv.n != yv.n {
+				return ff
+			}
+			vt := t.Underlying().(*types.Map).Elem()
+			r := tt
+			for i, k := range xv.keys {
+				if xv.del[i] {
+					continue
+				}
+				ov, ok := e.mapGet(yv, k)
+				if !ok {
+					return ff
+				}
+				r = mkAnd(r, deep(e, vt, xv.vals[i], ov, d+1))
+			}
+			return r
+		case *Value:
+			yv := y.(*Value)
+			if xv == yv {
+				return tt
+			}
+			if xv == nil || yv == nil {
+				return ff
+			}
+			pt, ok := t.Underlying().(*types.Pointer)
+			if !ok {
+				panic(unsupported("reflect.DeepEqual on " + t.String()))
+			}
+			return deep(e, pt.Elem(), *xv, *yv, d+1)
+		case *ssa.Function:
+			if yf, _ := y.(*ssa.Function); xv == nil && yf == nil {
+				return tt
+			}
+			return ff
+		case *Closure:
+			if yc, _ := y.(*Closure); xv == nil && yc == nil {
+				return tt
+			}
+			return ff
+		case Int, Bool, Str, Float:
+			return e.binop(token.EQL, t, x, y).(Bool).term()
+		}
+		panic(unsupported(fmt.Sprintf("reflect.DeepEqual on %T", x)))
+	}
+	intrinsics["reflect.DeepEqual"] = func(e *Engine, a []Value) Value {
+		return fromTermB(deep(e, nil, a[0], a[1], 0))
+	}
 }
